@@ -30,6 +30,7 @@ type input struct {
 	NP    int    `json:"np,omitempty"`
 	NH    int    `json:"nh,omitempty"`
 	Ops   []opj  `json:"ops,omitempty"`
+	HSend int    `json:"hsend,omitempty"` // 1: error handler 0 sends to the lost peer; 2: through a goroutine
 	// classify
 	Err  string `json:"err,omitempty"`
 	Feat []bool `json:"feat,omitempty"`
@@ -211,7 +212,11 @@ func generate(rng *rand.Rand, tier string) []interface{} {
 	for i := 0; i < nScript; i++ {
 		np, nh := 1+rng.Intn(3), rng.Intn(4)
 		tcp := rng.Intn(2) == 0
-		ins = append(ins, input{Kind: "script", TCP: tcp, NP: np, NH: nh,
+		hs := 0
+		if nh > 0 && i%3 == 0 {
+			hs = 1 + rng.Intn(2)
+		}
+		ins = append(ins, input{Kind: "script", TCP: tcp, NP: np, NH: nh, HSend: hs,
 			Ops: genOps(rng, np, nh, 8+rng.Intn(30), true, tcp)})
 	}
 	for i := 0; i < nCls; i++ {
@@ -231,7 +236,7 @@ func generate(rng *rand.Rand, tier string) []interface{} {
 		if !tcp {
 			n = 6 + rng.Intn(6) // a failed dial costs 0.5 s of retries on the in-memory transport
 		}
-		ins = append(ins, input{Kind: "real", TCP: tcp, NP: np, NH: nh, Ops: genOps(rng, np, nh, n, false, tcp)})
+		ins = append(ins, input{Kind: "real", TCP: tcp, NP: np, NH: nh, HSend: (i / 2) % 3, Ops: genOps(rng, np, nh, n, false, tcp)})
 	}
 	ins = append(ins, genEntry(rng, tier)...)
 	ins = append(ins, genCluster(rng, tier)...)
@@ -304,6 +309,20 @@ func corpus() []interface{} {
 			{K: "send", P: 0, M: []int{1}}, {K: "crash", P: 0}, {K: "abandoneddial", P: 0}, {K: "recverr", C: 0, E: "EClosed"},
 			{K: "send", P: 0, M: []int{2}}, {K: "restart", P: 0}, {K: "send", P: 0, M: []int{3}},
 			{K: "recverr", C: 1, E: "ETimeout"}, {K: "send", P: 0, M: []int{4}}}},
+		// re-entrant error handlers: they read their router, send to the lost peer (directly / through
+		// a goroutine they hand the identity to)
+		input{Kind: "script", Label: "reentrant-handler", TCP: false, NP: 2, NH: 2, HSend: 1, Ops: []opj{
+			{K: "send", P: 0, M: []int{1}}, {K: "send", P: 1, M: []int{2}}, {K: "recverr", C: 0, E: "ETimeout"},
+			{K: "crash", P: 1}, {K: "recverr", C: 1, E: "EEOF"}, {K: "send", P: 0, M: []int{3}}, {K: "send", P: 1, M: []int{4}}}},
+		input{Kind: "script", Label: "reentrant-handler", TCP: true, NP: 1, NH: 1, HSend: 2, Ops: []opj{
+			{K: "send", P: 0, M: []int{1}}, {K: "crash", P: 0}, {K: "recverr", C: 0, E: "EUnknown"}, {K: "restart", P: 0},
+			{K: "send", P: 0, M: []int{2}}}},
+		input{Kind: "real", Label: "reentrant-handler", TCP: false, NP: 2, NH: 2, HSend: 1, Ops: []opj{
+			{K: "send", P: 0, M: []int{1}}, {K: "send", P: 1, M: []int{2}}, {K: "crash", P: 0}, {K: "send", P: 1, M: []int{3}},
+			{K: "restart", P: 0}, {K: "send", P: 0, M: []int{4}}}},
+		input{Kind: "real", Label: "reentrant-handler", TCP: true, NP: 2, NH: 2, HSend: 2, Ops: []opj{
+			{K: "send", P: 0, M: []int{1}}, {K: "send", P: 1, M: []int{2}}, {K: "peersend", P: 0, M: []int{5}}, {K: "crash", P: 0},
+			{K: "send", P: 1, M: []int{3}}, {K: "restart", P: 0}, {K: "send", P: 0, M: []int{4}}}},
 		input{Kind: "real", Label: "crash-during-setup", TCP: false, NP: 1, NH: 1, Ops: []opj{
 			{K: "sendhold", P: 0, M: []int{1}}, {K: "crash", P: 0}, {K: "resume"}, {K: "restart", P: 0}, {K: "send", P: 0, M: []int{2}}}},
 		input{Kind: "real", Label: "crash-during-setup", TCP: true, NP: 1, NH: 1, Ops: []opj{
